@@ -171,6 +171,10 @@ int hist_op(int argc, char** w) {
   if (!strcmp(op, "copy") && n == 2) { put_new(S(a[0]), cbor_copy(slot[S(a[1])]), 1); return 1; }
   if (!strcmp(op, "incref") && n == 2) { put_new(S(a[0]), cbor_incref(slot[S(a[1])]), 0); return 1; }
   if (!strcmp(op, "decref") && n == 1) { cbor_decref(&slot[S(a[0])]); slot[S(a[0])] = NULL; printf("done"); summary(); return 1; }
+  if (!strcmp(op, "drop") && n == 1) {   /* release the slot's reference if it holds one */
+    if (slot[S(a[0])]) { cbor_decref(&slot[S(a[0])]); slot[S(a[0])] = NULL; printf("done"); } else printf("empty");
+    summary(); return 1;
+  }
   if (!strcmp(op, "load") && n == 2) {
     struct xbuf in = hex_to_exact(a[1]);
     struct cbor_load_result res; memset(&res, 0x5a, sizeof res);
